@@ -375,17 +375,36 @@ func checkNoncePair(e *Engine, r *Report, inc *Decorator) {
 		}
 	}
 
-	// --- ante side
-	ss := findSetSeq(fn, token.ADD)
+	// --- ante side (the decorator together with its single-site private helpers)
+	reg := e.privateRegion(fn)
+	sg := reg.Supergraph()
+	var ss *ssa.Call
+	for _, f := range reg.Fns {
+		if ss = findSetSeq(f, token.ADD); ss != nil {
+			break
+		}
+	}
 	if ss == nil {
 		r.Bad(name+" › SetSequence(GetSequence()+1)", e.Pos(fn.Pos()), "no SetSequence(acc.GetSequence()+1) on the account in the increment decorator")
 	} else {
 		nexts := ethNextCalls(fn)
-		sa := findAfter(fn, ss, setAccPred(ss.Call.Value))
-		fl := findAfter(fn, ss, flagPred(true))
+		var sa, fl ssa.CallInstruction
+		for _, c := range reg.Calls(setAccPred(ss.Call.Value)) {
+			if sg.PassesOr(c, ss, nil) {
+				sa = c
+				break
+			}
+		}
+		for _, c := range reg.Calls(flagPred(true)) {
+			if sg.PassesOr(c, ss, nil) {
+				fl = c
+				break
+			}
+		}
 		okDom := len(nexts) > 0
+		_, cosmosG := laneGuards(fn)
 		for _, n := range nexts {
-			if !dominatesInstr(ss, n) {
+			if !sg.PassesOr(n, ss, cosmosG) {
 				okDom = false
 			}
 		}
@@ -393,18 +412,22 @@ func checkNoncePair(e *Engine, r *Report, inc *Decorator) {
 		okSA := sa != nil
 		okFl := fl != nil
 		for _, n := range nexts {
-			if sa == nil || !dominatesInstr(sa, n) {
+			if sa == nil || !sg.PassesOr(n, sa, cosmosG) {
 				okSA = false
 			}
-			if fl == nil || !dominatesInstr(fl, n) {
+			if fl == nil || !sg.PassesOr(n, fl, cosmosG) {
 				okFl = false
 			}
 		}
 		r.Check(okSA, name+" › SetAccount persists the increment", e.Pos(ss.Pos()), "SetAccount(ctx, acc) of the same account dominates next()", "the incremented account is not stored with SetAccount on every Ethereum-lane path to next()")
 		r.Check(okFl, name+" › flag raised", e.Pos(ss.Pos()), "SetFlagSenderNonceIncreasedByAnteHandle(ctx, true) dominates next()", "the nonce-increased flag is not raised on every Ethereum-lane path to next(): execution will not undo the increment and the EVM increments again (nonce +2)")
 		// account is that of msg.From
-		sl := backSlice(ss.Call.Value, SliceOpts{ThroughCallArgs: alwaysThrough})
-		r.Check(derivesFromTxMsgs(fn, ss.Call.Value) && sl.Has(func(x ssa.Value) bool {
+		sl := reg.BackSlice(ss.Call.Value, SliceOpts{ThroughCallArgs: alwaysThrough})
+		txP := anteParam(fn, 1)
+		r.Check(sl.Has(func(x ssa.Value) bool {
+			c, ok := x.(*ssa.Call)
+			return ok && isMethodNamed(c, "GetMsgs") && strip(c.Call.Value) == ssa.Value(txP)
+		}) && sl.Has(func(x ssa.Value) bool {
 			c, ok := x.(*ssa.Call)
 			return ok && isMethodNamed(c, "GetAccount")
 		}), name+" › account of msg.From", e.Pos(ss.Pos()), "the account incremented is GetAccount(ctx, msg.GetFrom())", "the account whose sequence is incremented does not derive from the embedded message's From")
@@ -415,7 +438,7 @@ func checkNoncePair(e *Engine, r *Report, inc *Decorator) {
 				continue
 			}
 			for _, c := range callsIn(f, false, flagPred(true)) {
-				if f != fn {
+				if !reg.in[f] {
 					r.Bad("flag raised outside the increment decorator › "+fnKey(f), e.Pos(c.Pos()), "SetFlagSenderNonceIncreasedByAnteHandle(true) is called outside the increment decorator: the execution-side undo would decrement a nonce that was never incremented")
 					n++
 				}
